@@ -31,7 +31,7 @@ def _in_chars(items, rng, flags, ascii_only=False):
     pool=[ch for ch in ASCII_POOL+(["\n"] if ascii_only else ["\n","§","é","“"]) if ch not in pos and not catmatch(ch)]
     return rng.choice(pool)
 
-def sample(pattern, rng, flags=0, maxrep=3, ascii_only=False, tree=None, chooser=None):
+def sample(pattern, rng, flags=0, maxrep=3, ascii_only=False, tree=None, chooser=None, in_hook=None):
     tree = tree if tree is not None else sre_parse.parse(pattern, flags)
     out=[]
     def cat_char(av):
@@ -55,7 +55,9 @@ def sample(pattern, rng, flags=0, maxrep=3, ascii_only=False, tree=None, chooser
             elif op is sre_c.NOT_LITERAL:
                 out.append(rng.choice([c for c in "aZ 9.," if c!=chr(av)]))
             elif op is sre_c.ANY: out.append(rng.choice("aZ9 .," if ascii_only else "aZ9 .,§"))
-            elif op is sre_c.IN: out.append(_in_chars(av, rng, flags, ascii_only))
+            elif op is sre_c.IN:
+                ch = in_hook(av) if in_hook else None
+                out.append(ch if ch is not None else _in_chars(av, rng, flags, ascii_only))
             elif op is sre_c.CATEGORY: out.append(cat_char(av))
             elif op is sre_c.BRANCH:
                 alts=av[1]
@@ -102,6 +104,7 @@ def cover(pattern, rng, flags=0, max_samples=60, maxrep=2, ascii_only=False):
     tree = sre_parse.parse(pattern, flags)
     uncovered = set(_branch_alts(tree, []))
     memo = {}
+    class_done = set()
 
     def pending(seq):
         k = id(seq)
@@ -123,10 +126,24 @@ def cover(pattern, rng, flags=0, max_samples=60, maxrep=2, ascii_only=False):
             taken.append((id(alts), best[1]))
             return best[0]
 
-        s = sample(pattern, rng, flags, maxrep=maxrep, ascii_only=ascii_only, tree=tree, chooser=chooser)
+        def in_hook(items):
+            # literal non-ASCII members of a (non-negated) character class: each at least once
+            if any(op is sre_c.NEGATE for op, _ in items):
+                return None
+            for op, av in items:
+                if op is sre_c.LITERAL and av > 127 and (id(items), av) not in class_done:
+                    class_done.add((id(items), av))
+                    class_new.append(av)
+                    return chr(av)
+            return None
+
+        class_new = []
+        s = sample(pattern, rng, flags, maxrep=maxrep, ascii_only=ascii_only, tree=tree, chooser=chooser, in_hook=in_hook)
         n += 1
         before = len(uncovered)
         uncovered.difference_update(taken)
         yield s
+        if class_new:
+            continue        # a class member was new: there may be more
         if not uncovered or (len(uncovered) == before and n > 3):
             break
